@@ -109,7 +109,7 @@ type runner struct {
 
 func newRunner() *runner {
 	return &runner{goids: map[int64]int{}, gates: map[int]chan struct{}{}, evch: make(chan event, 4096),
-		mail: map[int][]event{}, serials: map[*Cfg]uint64{}, watchdog: 400 * time.Millisecond, hardStop: 30 * time.Second}
+		mail: map[int][]event{}, serials: map[*Cfg]uint64{}, watchdog: 150 * time.Millisecond, hardStop: 30 * time.Second}
 }
 
 func goid() int64 {
